@@ -15,13 +15,16 @@ sys.path.insert(0, os.path.dirname(os.path.dirname(os.path.abspath(__file__))))
 from harness import vlib  # noqa: E402
 
 
-def solver_level(prop, tier, level, corpus_fn, with_model=True, with_liveness=False, extra_assume=(), text=""):
+def solver_level(prop, tier, level, corpus_fn, with_model=True, with_liveness=False, extra_assume=(), text="", with_replay=False):
     from harness import solverchecks as sc
     V = vlib.Verdict(prop, tier)
     wd = vlib.scratch()
     cov = {}
     if with_model:
         cov.update(sc.model_part(prop, tier, V, os.path.join(wd, "model"), with_liveness=with_liveness))
+    if with_replay:
+        from harness import replay_solve as rs
+        cov.update(rs.replay_part(prop, tier, V, os.path.join(wd, "replay")))
     insts = corpus_fn(tier)
     tcov, _ = sc.trace_part(prop, insts, V, os.path.join(wd, "traces"))
     cov.update(tcov)
@@ -38,17 +41,17 @@ def run_property(prop, tier):
     if prop == "C01":
         return solver_level("C01", tier, "exploration", sc.corpus_C01, with_model=False)
     if prop == "C02":
-        return solver_level("C02", tier, "model_checking", sc.corpus_C02, with_liveness=True)
+        return solver_level("C02", tier, "model_checking", sc.corpus_C02, with_replay=True, with_liveness=True)
     if prop == "C03":
-        return solver_level("C03", tier, "model_checking", sc.corpus_C03)
+        return solver_level("C03", tier, "model_checking", sc.corpus_C03, with_replay=True)
     if prop == "C04":
-        return solver_level("C04", tier, "model_checking", sc.corpus_C04)
+        return solver_level("C04", tier, "model_checking", sc.corpus_C04, with_replay=True)
     if prop == "C08":
-        return solver_level("C08", tier, "model_checking", sc.corpus_C08)
+        return solver_level("C08", tier, "model_checking", sc.corpus_C08, with_replay=True)
     if prop == "C09":
         return solver_level("C09", tier, "model_checking", sc.corpus_C09, with_model=False)
     if prop == "C10":
-        return solver_level("C10", tier, "model_checking", sc.corpus_C10, with_liveness=True)
+        return solver_level("C10", tier, "model_checking", sc.corpus_C10, with_replay=True, with_liveness=True)
     if prop == "C11":
         return solver_level("C11", tier, "model_checking", sc.corpus_C11)
     if prop == "C18":
